@@ -233,7 +233,9 @@ def factorizations(n, maxprod, depth=3):
 
 def scenarios(tier):
     R1 = [(1, 0, "v"), (0, 1, "HH_m"), (0, 0, "v")]
-    R2 = [(2, 1, "v"), (2, 1, "v"), (0, 0, "HH_h"), (2, 0, "v")]      # duplicate record call
+    # a record call repeated AFTER other recordings were added in between (and once immediately): one row per distinct request, in
+    # first-request order (seeded change C08_e keeps the last occurrence instead, which shifts every row in between)
+    R2 = [(2, 1, "v"), (0, 0, "HH_h"), (2, 1, "v"), (2, 1, "v"), (2, 0, "v"), (0, 0, "HH_h")]
     S = []
     stim_sets = [
         [],
